@@ -106,6 +106,28 @@ def run_case(case):
             return viol("count_raised|" + exc_sig(e), exc_detail(e), labels=labels)
         if cnt != len(rr):
             return viol("count_disagrees", "count(filters, row_filter=True)=%d but %d rows were returned" % (cnt, len(rr)), labels=labels)
+        # the caller edits its own filter list in place and asks again through the same handle: the answer must be
+        # that of the edited program (compared with a fresh handle given a fresh copy of it)
+        if isinstance(F, list) and len(F) >= 2:
+            import copy as _copy
+            import fastparquet as _fp
+            F.pop()
+            try:
+                again = [int(x) for x in p.pf.to_pandas(filters=F, row_filter=True, columns=["_rid"])["_rid"].tolist()]
+                again_n = int(p.pf.count(filters=F, row_filter=True))
+                fresh_pf = _fp.ParquetFile(p.path)
+                fc.move_stats(fresh_pf, case.get("stats_fields"))
+                fresh = [int(x) for x in fresh_pf.to_pandas(filters=_copy.deepcopy(F), row_filter=True, columns=["_rid"])["_rid"].tolist()]
+            except Exception as e:
+                if not fc.is_refusal(e):
+                    return viol("second_query_raised|" + exc_sig(e), exc_detail(e), labels=labels)
+                again = fresh = None
+            if again is not None:
+                labels.append("filter_list_edited_in_place")
+                if again != fresh or again_n != len(fresh):
+                    return viol("stale_answer_after_in_place_edit",
+                                "after filters.pop() the same handle returns rows %r (count %d); a fresh handle returns %r for %r"
+                                % (again[:30], again_n, fresh[:30], F), labels=labels)
         proper = 0 < len(rr) < len(p.rids)
         multi = len([g for g in p.groups if g]) >= 2 or bool(case["opts"].get("page_size"))
         if any(v == mf.U for v in p.verdict.values()):
